@@ -1074,7 +1074,13 @@ Section MoveMachine.
       pose proof HD_all as HDa. destruct (last_all (m_stmts miD) None) as [a|]; [|reflexivity]. apply memN_false. exact (HDa a eq_refl). }
     assert (Hs1' : s1 = reparent s x Rm n).
     { rewrite Hs1. unfold import_name. cbv zeta. rewrite Hexports. unfold handle_reexport.
-      rewrite (proj2 (memN_In n (exports_of_mod miR)) HR_exp), Hcont, Ed, Hlisted. reflexivity. }
+      assert (Hxpar : exists xb, objs s x = Some xb /\ o_parent xb = Some Dm).
+      { destruct (objs s x) as [xb|] eqn:Ex; [|exfalso; apply (oa_exists _ _ _ _ _ HA) in Cx; congruence].
+        assert (Hsx : exists six, sobj p x = Some six) by (destruct (sobj p x); [eauto|congruence]).
+        destruct Hsx as (six & Esx). destruct (oa_static _ _ _ _ _ HA x xb six Ex Esx) as (_ & _ & _ & Hp & _).
+        rewrite (sparent_x p D ix Hix Hxdom) in Hp. eauto. }
+      destruct Hxpar as (xb & Ex & Hxp).
+      rewrite (proj2 (memN_In n (exports_of_mod miR)) HR_exp), Hcont, Ex, Hxp, Ed, Hlisted. reflexivity. }
     destruct (reparent_move p R D ix xname n H0 H1 HRD Hix Hxdom Hxname (created_of p s) s HA HR' Cx CR CD)
       as (A1 & R1 & M1 & (db' & Ed' & Ea') & Hctl).
     rewrite <- Hs1' in A1, R1, M1, Ed', Hctl.
